@@ -8,6 +8,7 @@ RULES = {
     "N2": "a successful cancel / price move returns the very value handed out by Q.remove (the map removal is the single ownership transfer), for the update's own id",
     "N3": "update_order answers not-found (Ok(None)) only on a path where a lookup actually missed, and then without any effect",
     "N4": "OrderQueue::remove / pop hand out the payload of their own DashMap::remove (so nobody else can obtain the order afterwards)",
+    "N5": "no resurrection: every order a mutator publishes (push) and every counter operand derives from a value the thread owns (its parameter, or the payload of its own removal/pop), never from a lookup or a listing (find / to_vec / iter_orders): a copy taken from a listing may belong to an order whose cancel was acknowledged in between",
 }
 
 
@@ -26,5 +27,6 @@ def run(ctx, chk):
     Q = QueueAnalysis(ctx)
     LR.rule_windows(ctx, chk, L, "N1")
     LR.rule_removal_returns(ctx, chk, L, "N2", "N3")
+    LR.rule_owned_operands(ctx, chk, L, "N5")
     Q.rule_remove_find(chk, "N4")
     Q.rule_pop(chk, "N4", "N4", "N4")
